@@ -124,6 +124,24 @@ def text(reg):
         }, notes='n characters from 1-based position k, shorter at the end, empty beyond it'))
 
 
+    reg.spec('int_text', lambda i: T().V.Str(T().int_str(__import__('pv.symspec', fromlist=['to_int']).to_int(i))),
+             lambda i: str(i), 'decimal text of an integer (str(int), uninterpreted in the proofs)')
+    reg.add(Contract(
+        '_excel_value_to_string', 'runtime:_excel_value_to_string',
+        {**SELF, 'value': 'int|bool|empty|str|datetime|none'}, self_class='ExcelInPython',
+        ensures={
+            'text_is_itself': 'implies(is_str(value), result == value)',
+            'blank_is_empty_text': 'implies(is_empty(value) or is_none(value), result == "")',
+            'boolean_is_upper_case_word': 'implies(is_bool(value), result == ite(Bv(value), "TRUE", "FALSE"))',
+            'whole_number_is_its_decimal_text': 'implies(is_int(value) and not is_bool(value) and not is_empty(value), '
+                                                'result == int_text(I(value)))',
+            'date_is_its_serial_number': 'implies(is_datetime(value), result == int_text(tord(value) - 693594))',
+        },
+        notes='C17: the text form that & and CONCATENATE join - a text is itself, a blank the empty text, TRUE / FALSE, a whole '
+              'number its decimal text, a date-time the decimal text of its day serial (days since 1899-12-30, ordinal 693594). '
+              'Fractional numbers (float: repr / is_integer) are bounded (C17.monitor.concat).'))
+
+
 # ------------------------------------------------------------------------------------------------ C10
 def opres_z(op, lt, eq):
     """result of Excel/Python comparison operator `op` given that left<right is `lt` and left==right is `eq`"""
